@@ -19,7 +19,7 @@ import (
 // slot); handles returned by calls with Store=="" are closed at once (the
 // Close is a separate harness-level call, part "close").
 type op struct {
-	Thru  string   `json:"thru"` // failfs | sub | file
+	Thru  string   `json:"thru"` // failfs | sub | file | lower (stack.go: the failure function of the FailFS below is replaced)
 	Slot  int      `json:"slot"`
 	Store string   `json:"store,omitempty"` // "" | file | sub
 	C     fsx.Call `json:"c"`
@@ -27,6 +27,8 @@ type op struct {
 
 func (o op) String() string {
 	switch {
+	case o.Thru == "lower":
+		return "lower.SetFailFunc(" + o.C.A + ")"
 	case o.Thru == "file":
 		return fmt.Sprintf("h%d.%s", o.Slot, fileCallString(o.C))
 	case o.Store == "file":
@@ -206,8 +208,10 @@ func poolOpens(thru string) []fsx.Call {
 }
 
 // buildOps returns the alphabet of one base type. OrefaFS has no Sub file
-// systems (Sub always fails), so the through-Sub letters are left out.
-func buildOps(baseName string) []op {
+// systems (Sub always fails), so the through-Sub letters are left out. The
+// stack whose lower FailFS changes its failure function in mid-history
+// (stack.go) has two letters more: that function becomes ReadOnlyFunc / OkFunc.
+func buildOps(baseName, stack string) []op {
 	var ops []op
 
 	ns := nsCalls(baseName)
@@ -240,6 +244,14 @@ func buildOps(baseName string) []op {
 				ops = append(ops, op{Thru: "sub", Slot: slot, Store: "file", C: c})
 			}
 		}
+	}
+
+	if stack == stRoMid {
+		// appended last: the indices of all other letters are those of the unstacked alphabet
+		ops = append(ops,
+			op{Thru: "lower", C: fsx.Call{Op: "SetFailFunc", A: "ReadOnlyFunc"}},
+			op{Thru: "lower", C: fsx.Call{Op: "SetFailFunc", A: "OkFunc"}},
+		)
 	}
 
 	return ops
